@@ -50,6 +50,7 @@ type Obligation struct {
 	Info   string
 	Splits []string // case-split literals (append in-place flags on the path): tried when the whole goal is not decided
 	Extra  string   // extra assertions for a split case
+	Unsliced bool   // second attempt: all hypotheses, no relevance slicing
 }
 
 type edge struct {
@@ -306,7 +307,7 @@ func (o *Obligation) Script(produceModels bool) string {
 	goalText := o.PC + " " + o.Goal + " " + o.Extra
 	hyps := vc.asserts[:o.Prefix]
 	var rfam map[string]bool
-	if !o.Canary && !vc.noSlice && os.Getenv("GOVC_NOSLICE") == "" {
+	if !o.Canary && !o.Unsliced && !vc.noSlice && os.Getenv("GOVC_NOSLICE") == "" {
 		hyps, rfam = sliceHyps(hyps, vc.axiomAsserts, goalText, declared)
 	}
 	// heap well-typedness: every cell of every (relevant) heap version satisfies its type invariant
